@@ -459,3 +459,99 @@ func WalkAfter(from ssa.Instruction, visit func(in ssa.Instruction) bool) {
 	}
 	walkBlock(b, InstrIndex(from)+1)
 }
+
+// FieldPath is a (nested) field of a base value: base.f1.f2...
+type FieldPath struct {
+	Base ssa.Value
+	Path []*types.Var
+}
+
+// Same tells whether two field paths denote the same location (structurally equal base, identical field sequence).
+func (p FieldPath) Same(q FieldPath) bool {
+	if len(p.Path) != len(q.Path) || len(p.Path) == 0 {
+		return false
+	}
+	for i := range p.Path {
+		if p.Path[i] != q.Path[i] {
+			return false
+		}
+	}
+	return SameValue(p.Base, q.Base)
+}
+
+func fieldAddrPath(addr ssa.Value) (FieldPath, bool) {
+	var path []*types.Var
+	v := addr
+	for {
+		fa, ok := v.(*ssa.FieldAddr)
+		if !ok {
+			break
+		}
+		path = append([]*types.Var{FieldOfAddr(fa)}, path...)
+		v = fa.X
+	}
+	if len(path) == 0 {
+		return FieldPath{}, false
+	}
+	return FieldPath{Base: v, Path: path}, true
+}
+
+// LoadedField: v is a load of a (nested) struct field — directly (*(&base.f1.f2)) or through a repository accessor
+// method whose whole body is `return recv.f1.f2` (the base is then the call's receiver argument).
+func LoadedField(v ssa.Value) (FieldPath, bool) {
+	switch x := v.(type) {
+	case *ssa.UnOp:
+		if x.Op == token.MUL {
+			return fieldAddrPath(x.X)
+		}
+	case *ssa.Call:
+		cf := x.Call.StaticCallee()
+		if cf == nil || cf.Blocks == nil || len(cf.Blocks) != 1 || cf.Signature.Recv() == nil || len(cf.Params) != 1 || !InRepo(FuncPkg(cf)) {
+			return FieldPath{}, false
+		}
+		for _, in := range cf.Blocks[0].Instrs {
+			if rt, ok := in.(*ssa.Return); ok && len(rt.Results) == 1 {
+				if u, ok := rt.Results[0].(*ssa.UnOp); ok && u.Op == token.MUL {
+					if fp, ok := fieldAddrPath(u.X); ok && fp.Base == ssa.Value(cf.Params[0]) {
+						return FieldPath{Base: x.Call.Args[0], Path: fp.Path}, true
+					}
+				}
+			}
+		}
+	}
+	return FieldPath{}, false
+}
+
+// StoredField: in stores a value into a (nested) struct field — directly, or through a repository setter method whose
+// whole body is `recv.f1.f2 = param`.
+func StoredField(in ssa.Instruction) (FieldPath, ssa.Value, bool) {
+	switch x := in.(type) {
+	case *ssa.Store:
+		if fp, ok := fieldAddrPath(x.Addr); ok {
+			return fp, x.Val, true
+		}
+	case *ssa.Call:
+		cf := x.Call.StaticCallee()
+		if cf == nil || cf.Blocks == nil || len(cf.Blocks) != 1 || cf.Signature.Recv() == nil || len(cf.Params) != 2 || !InRepo(FuncPkg(cf)) {
+			return FieldPath{}, nil, false
+		}
+		n := 0
+		var fp FieldPath
+		ok := false
+		for _, bi := range cf.Blocks[0].Instrs {
+			switch y := bi.(type) {
+			case *ssa.Store:
+				n++
+				if p, isFP := fieldAddrPath(y.Addr); isFP && p.Base == ssa.Value(cf.Params[0]) && y.Val == ssa.Value(cf.Params[1]) {
+					fp, ok = p, true
+				}
+			case ssa.CallInstruction:
+				return FieldPath{}, nil, false
+			}
+		}
+		if ok && n == 1 {
+			return FieldPath{Base: x.Call.Args[0], Path: fp.Path}, x.Call.Args[1], true
+		}
+	}
+	return FieldPath{}, nil, false
+}
